@@ -193,6 +193,37 @@ func c09Run(c *core.Ctx) {
 		}
 	}
 
+	// D: literal fragments: every proper or full prefix of true / false / null
+	// followed by up to two symbols, in four contexts, both modes and every cut
+	{
+		follow := []string{"", "x", "e", "r", "l", "]", "}", ",", " ", "\"", "1", ":", "t", "n", "s", "!"}
+		for _, lit := range []string{"true", "false", "null"} {
+			for k := 1; k <= len(lit); k++ {
+				if !c.Next() || c.Expired() {
+					continue
+				}
+				for _, f1 := range follow {
+					for _, f2 := range follow {
+						if f1 == "" && f2 != "" {
+							continue
+						}
+						for _, ctx := range []string{"[", "[1,", `{"a":`, "[[", `{"a":[1,`, "[ "} {
+							s := []byte(ctx + lit[:k] + f1 + f2)
+							try(s, 0, "D:literal-fragments", false)
+							cs.In, cs.Ints[0] = append(append([]byte{}, s...), "]]}}"...), 0
+							for cut := len(ctx) + 1; cut <= len(s); cut++ {
+								cs.Limit = uint32(cut)
+								c.R.Transitions++
+								c.R.Evals++
+								c.Check(cs)
+							}
+						}
+					}
+				}
+			}
+		}
+	}
+
 	// C: mutation closure of valid documents.
 	T := 7
 	if c.Thorough() {
